@@ -157,12 +157,27 @@ def run(ctx):
         ctx.ob("C07.b", con.qual, False, "", func=con.qual, file=file, construct="self._protocol store",
                fail=f"the protocol stored by LAN is not a freshly constructed _LanProtocol / _LanProtocolV3 ({e})")
     fresh = False
-    for n in ast.walk(con.node):
-        if isinstance(n, ast.Assign) and any(is_self_attr(t, "_protocol") for t in n.targets):
-            t = cs.ta.terms_at.get(n.value)
-            # the stored protocol is element 1 of the awaited create_connection whose factory *constructs* (calls) a class
-            lam = [x for x in subterms(t) if x[0] == "lambda"] if t else []
-            fresh = bool(lam) and all(x[2][0] == "call" and x[2][1][0] in ("dyn", "func") for x in lam) and t[0] == "item" and t[2] == 1
+    finals = [strip(rst.env.get(f"{con.params[0]}._protocol", ("top", "not stored"))) for _pc, _t, n_, rst in cs.returns]
+
+    def class_valued(x):
+        x = strip(x)
+        if x[0] == "ite":
+            return class_valued(x[2]) and class_valued(x[3])
+        return x[0] == "global" and x[1] in prog.classes
+
+    def fresh_value(t):
+        # element 1 of the awaited create_connection(factory, ...) whose factory *constructs* a protocol: a lambda / local function
+        # calling a class, or the class itself
+        if not (t[0] == "item" and t[2] == 1):
+            return False
+        cc = [x for x in subterms(t) if x[0] == "call" and x[1][0] == "meth" and x[1][2] == "create_connection"]
+        if len(cc) != 1 or not cc[0][2]:
+            return False
+        fac = strip(cc[0][2][0])
+        if fac[0] == "lambda":
+            return fac[2][0] == "call" and fac[2][1][0] in ("dyn", "func") and (fac[2][1][0] == "func" or class_valued(fac[2][1][1]))
+        return class_valued(fac)
+    fresh = bool(finals) and all(fresh_value(t) for t in finals)
     ctx.ob("C07.b", con.qual, fresh and set(types) == {V2, V3}, "_connect stores the protocol object newly constructed by the connection factory",
            func=con.qual, file=file, construct="self._protocol = protocol", detail={"classes": types},
            fail="_connect can store a protocol object that was not freshly constructed for this connection (old key / counter / buffer survive a reconnect)")
